@@ -4,7 +4,6 @@ Property theorems only (helper lemmas: KlogV/Lemmas/Report.lean).
 -/
 import KlogV.Lemmas.Report
 import KlogV.Props.Tables
-import KlogV.Props.GoCal
 namespace KlogV.C12
 
 /-- Sorting returns the same records, ordered by date. -/
